@@ -50,6 +50,10 @@ PROP = [  # (subject fragment, property)
  ("gd_move of a reference field", "C07"), ("GD_DEL_DEREF must mark the client's fragment", "C07"), ("whose /REFERENCE it changes modified", "C07"),
  ("NULL that _GD_StripCode returns", "C07"), ("differ from its rewritten parent's", "C07"), ("strip field names with GD_CO_NAME", "C07"),
  ("window that began before sample zero", "C01"), ("must not index beyond the end of the CARRAY", "C05"), ("scalar field equal to zero", "C05"),
+ ("gd_hide, gd_unhide and gd_alter_protection must forget", "C07"), ("mark the including fragment modified", "C07"),
+ ("must not write a Standards Version the metadata", "C07"), ("must not finish a suffix buffer", "C09"), ("inherits the ARM flag", "C09"),
+ ("write-mode gd_seek must not create", "C11"), ("_GD_CopyScalars must check scalar codes", "C15"),
+ ("must not move the I/O pointer of a field open for writing", "C17"), ("must resolve scalar parameters before using them", "C16"),
  ("failing BZ2_bzRead must invalidate", "C02"), ("LINCOM with real scalars read as a complex type", "C01"), ("gd_add must record the sample size", "C03"),
  ("MPLEX look-back must restore", "C02"), ("invalidate the MPLEX start-value cache", "C02"), ("failing out-of-place write must report", "C14"), ("close failures while replacing", "C14"),
 ]
